@@ -503,6 +503,25 @@ func genC11(r *rand.Rand, tier string, st *Stats) []Case {
 			g.proc("un", "p", pre+" return ( "+e+" ) == ( "+e+" )", map[string]string{"cell": "vars"})
 		}
 	}
+	// values are immutable: ONE value (itself the result of an operation, held in a variable) is used twice in two
+	// different operations whose results are both kept and read afterwards — in two variables, or as the two operands of
+	// one expression; also snapshots of an accumulator read after the accumulator has grown
+	for _, mk := range []string{"match + 'ab'", "'q' + match + match", "match + 1", "tail ( match + 'abcdefgh' )", "matchLength * 3", "match + '' + 'z'"} {
+		for _, use := range []string{
+			"set a to x + '1' set b to x + '2' return a + b",
+			"set a to x + '1' set b to x + '2' return b + a",
+			"set a to x + 'one' set b to x + 'twotwo' set c to x + '3' return a + '|' + b + '|' + c",
+			"if ( x + '1' ) == ( x + '2' ) then return 'same' end return 'diff'",
+			"if ( x + 'a' ) != ( x + 'b' ) then return 'diff' end return 'same'",
+			"set a to x + '1' set x to x + '2' return a + x",
+			"set a to x set x to x + 'k' set b to x set x to x + 'm' return a + '|' + b + '|' + x",
+			"set i to 0 set a to '' loop if i >= 3 then break end set i to i + 1 set y to x + i set a to a + y + ',' end return a + x",
+		} {
+			g.proc("im", "t", "set x to "+mk+" "+use, map[string]string{"cell": "vars"})
+		}
+		g.proc("im", "p", "set x to "+mk+" return ( x + '1' ) != ( x + '2' )", map[string]string{"cell": "vars"})
+		g.proc("im", "p", "set x to "+mk+" set a to x + '1' set b to x + '2' return a < b", map[string]string{"cell": "vars"})
+	}
 	// (B) random well-typed trees, both renderings, value + syntax tree
 	ntrees := sizes(tier, 1500, 100000)
 	for i := 0; i < ntrees; i++ {
